@@ -207,3 +207,32 @@ def union_scenarios(world: SqlWorld, branch):
                 out.append((f"{desc}: result columns", sel == [luid[n] for n in lnames] and names_after == lnames,
                             f"after the union the visible columns are {names_after} (identities {sel}); documented: the left table's columns {lnames}"))  # fmt: skip
     return out
+
+
+def rename_scenarios(world: SqlWorld, branch):
+    """the Rename branch: visible columns get their new labels (also when a hidden column carries the same label), the
+    selection is untouched.  -> list of (description, ok, detail)"""
+    p = world.p
+    out = []
+    scen = [
+        ("plain rename", ["V1", "V2"], {"V1": "a", "V2": "b"}, {"a": "x"}, {"V1": "x", "V2": "b"}),
+        ("swap", ["V1", "V2"], {"V1": "a", "V2": "b"}, {"a": "b", "b": "a"}, {"V1": "b", "V2": "a"}),
+        ("hidden column labelled like the renamed visible one, hidden first", ["V1"], {"H": "b", "V1": "b", "V2": "c"}, {"b": "d"}, {"V1": "d"}),
+        ("hidden column labelled like the renamed visible one, hidden last", ["V1"], {"V1": "b", "V2": "c", "H": "b"}, {"b": "d"}, {"V1": "d"}),
+        ("hidden column labelled like the new name", ["V1"], {"V1": "a", "H": "x"}, {"a": "x"}, {"V1": "x"}),
+    ]
+    for label, select, labels, name_map, want in scen:
+        nd = p.new("tree.verbs", "Rename", child=None, name="t", name_map=dict(name_map))
+        local = {
+            "nd": nd, "needed_cols": {}, "sqa": world.sqa_ns(), "table": Var("table"), "query": world.query(list(select)),
+            "sqa_expr": {u: world.label(n) for u, n in labels.items()},
+        }  # fmt: skip
+        res = world.run_stmts(branch, local)
+        after = res["sqa_expr"]
+        got = {u: (after[u].attrs["name"] if u in after and isinstance(after[u], Obj) else None) for u in want}
+        q = res["query"]
+        sel_ok = isinstance(q, Obj) and q.attrs.get("select") == list(select)
+        out.append((label, got == want and sel_ok and set(after) == set(labels),
+                    f"rename {name_map} with labels {labels} (visible: {select}): afterwards the visible columns are labelled {got}, documented {want}; "
+                    f"selection {q.attrs.get('select') if isinstance(q, Obj) else q}"))  # fmt: skip
+    return out
